@@ -250,6 +250,7 @@ class Type4Tag(nfc.tag.Tag):
                 log.warning("insufficient capability data")
                 return False
 
+            capabilities = capabilities[0:15]
             capabilities += (15-len(capabilities)) * b"\0"  # for unpack
             ver, mle, mlc, tag, val = unpack(">BHHB9p", capabilities)
             log.debug("ndef mapping version %d.%d", ver >> 4, ver & 15)
@@ -303,11 +304,19 @@ class Type4Tag(nfc.tag.Tag):
 
                 nlen = unpack(lfmt, nlen)[0]
                 log.debug("ndef data length is {0}".format(nlen))
+                if nlen > self._capacity:
+                    log.debug("ndef data length exceeds the file size")
+                    return None
 
                 data = bytearray()
                 while len(data) < nlen:
                     offset = self._nlen_size + len(data)
-                    data += self._read_binary(offset, nlen - len(data))
+                    part = self._read_binary(offset, nlen - len(data))
+                    if not part:
+                        log.debug("no more data returned by the tag")
+                        return None
+                    data += part
+                del data[nlen:]
 
             except Type4TagCommandError:
                 return None
